@@ -113,6 +113,7 @@ def oracle(stream, ops, out):
     lines = out[1:]
     closed_seen = None
     opened = None
+    partopen = False
     for l in lines:
         f = V.kv(l)
         if l.startswith("live "):
@@ -122,12 +123,20 @@ def oracle(stream, ops, out):
         if stream == "c07":
             if l.startswith(("open ", "test ")):
                 opened = f.get("rc") == "0"
+                partopen = opened and l.startswith("test ")
                 if not opened and f.get("closed") != "0":
                     return "close-on-failed-open: " + l
-            if l.startswith("testopen ") and f.get("rc") not in (None, "0", "-9999", "OV_EINVAL"):
-                opened = False
-                if f.get("closed") != "0":
-                    return "close-on-failed-open: " + l
+            if l.startswith("testopen "):
+                # OV_EINVAL is ambiguous: "handle is not half open" (nothing happens) or the second stage itself failed with that
+                # code (e.g. the tell callback failing): the latter can only happen on a half-open handle, which it leaves cleared
+                rc = f.get("rc")
+                if rc == "0":
+                    partopen = False
+                elif rc not in (None, "-9999") and (rc != "OV_EINVAL" or partopen):
+                    opened = False
+                    partopen = False
+                    if f.get("closed") != "0":
+                        return "close-on-failed-open: " + l
             if l.startswith("clear rc="):
                 want = "1" if opened else "0"
                 if opened and f.get("closed") != want:
